@@ -17,7 +17,7 @@ MANIFEST = dict(
     note="Modelled, not verified: Python isinstance dispatch; str * int.",
     technique="Lean 4 proof by mutual structural induction + differential correspondence check (exact string)",
 )
-PROP_FILES = ["HtmlVerif/Props/C05.lean", "HtmlVerif/Props/Consts.lean"]
+PROP_FILES = ["HtmlVerif/Props/C05.lean", "HtmlVerif/Props/ConstsRender.lean"]
 
 
 def no_ws(n) -> bool:
